@@ -36,6 +36,8 @@ pub enum Step<S> {
 ///   key is reached a second time the fingerprints must agree, else `on_mismatch` is called
 ///   with both paths (the "state reached from elsewhere" differential oracle).
 ///
+/// * `visit(state, path)` is called once per NEW (deduplicated) state: observers attach here.
+///
 /// Deterministic: the frontier is processed in (parent, op) order and the first arrival wins.
 pub fn bfs<S, K, F, Op>(
     starts: Vec<(S, Vec<u16>)>,
@@ -46,6 +48,7 @@ pub fn bfs<S, K, F, Op>(
     key: impl Fn(&S) -> K + Sync,
     fingerprint: impl Fn(&S) -> F + Sync,
     on_mismatch: impl Fn(&[u16], &[u16]) + Sync,
+    visit: impl Fn(&S, &[u16]) + Sync,
 ) -> E1Stats
 where
     S: Send + Sync,
@@ -121,6 +124,7 @@ where
             }
         }
         stats.per_depth.push(next.len() as u64);
+        next.par_iter().for_each(|(s, p)| visit(s, p));
         if capped {
             stats.cap_hit_at_depth = Some(depth + 1);
             stats.depth_completed = depth;
